@@ -37,6 +37,7 @@ RepCls(k) ==
     [] k = "s_err" -> {"500", "204"}
     [] k = "s_cimerror" -> {"pgbad"}
     [] k = "c_type" -> {"missing", "plain"}
+    [] k = "h_num" -> {"big"}
     [] k = "u_bad" -> {"surrogate"}
     [] k = "x_char" -> {"ctrl"}
     [] k = "w_form" -> {"trunc"}
@@ -70,7 +71,8 @@ RepCls(k) ==
     [] k = "p_misc" -> {"empty"}
     [] k = "m_misc" -> {"retval_notype", "two_retvals"}
     [] OTHER -> {}
-RepTys == {"", "uint8", "real32", "IRETURNVALUE", "RETURNVALUE", "ERROR"}
+RepTys == {"", "uint8", "real32", "IRETURNVALUE", "RETURNVALUE", "ERROR",
+           "resptime"}
 RepSites == {"", "prop", "proparr", "key", "qdval", "qdarr", "retval",
              "outparamarr", "obj", "cls", "path", "ref", "paramarr",
              "only"}
@@ -78,6 +80,7 @@ IsRep(d) ==
   IF PairMode = "wide"
   THEN CASE d.k = "v_num" -> d.ty \in RepTys /\ d.cls \in RepCls("v_num")
          [] d.k = "o_pv" -> d.cls \in RepCls("o_pv")
+         [] d.k = "h_num" -> d.cls \in RepCls("h_num")
          [] d.k = "o_het" -> FALSE
          [] OTHER -> TRUE
   ELSE d.cls \in RepCls(d.k) /\ d.ty \in RepTys /\ d.site \in RepSites
